@@ -131,6 +131,67 @@ func pruneScenario(k scenKey) *Scenario {
 	return sc
 }
 
+const oneBatch = 1 << 30
+
+// pruneDeep: a pruning node whose persisted snapshot (next = 5) lies more than BlockHashLag below
+// the retention floor after a deep single-batch prune: the pruner's filter initialiser must clamp
+// the resume point to the floor (the headers below floor-lag are gone). Base: blocks 0..4,
+// snapshot, blocks 5..29 (mostly empty), process killed.
+func pruneDeepScenario(k scenKey) *Scenario {
+	r := lib.NewRNG(k.Seed)
+	g := lib.NewChainGen(r, k.SrcNew, lib.DefaultGenOptions())
+	sc := newScenario(k, g)
+	sc.Pruning = true
+	dst, dstDB := lib.NewNode(g.Net, k.DstNew)
+	fastForward(g, dst, 5, 2, r)
+	if err := dst.WriteRunningEventFilter(); err != nil {
+		panic(err)
+	}
+	fastForward(g, dst, 25, 4, r)
+	sc.Base = dstDB
+	b := &builder{g: g, r: r, sc: sc}
+	sc.BaseWorld = b.world()
+	b.pruneWith(uint64(22+r.Intn(4)), oneBatch)
+	b.simple("kill")
+	b.store(eventfulSpec(g, r, ""))
+	b.prune(b.flr + 2)
+	if r.Bool() {
+		b.simple("restart")
+	}
+	b.revert()
+	b.store(eventfulSpec(g, r, ""))
+	return sc
+}
+
+// boundaryPrune: a pruning node across the event-window boundary: blocks up to 8193, a deep
+// single-batch prune to 8189, a three-batch prune past the boundary (window [0,8191] goes),
+// ungraceful restart, revert, store.
+func boundaryPruneScenario(k scenKey, graceful bool) *Scenario {
+	bb := getBoundaryBase(k.DstNew)
+	r := lib.NewRNG(k.Seed)
+	g := cloneGen(bb.g, r)
+	sc := newScenario(k, g)
+	sc.SrcNew = k.DstNew
+	sc.Pruning = true
+	sc.Base = bb.killed
+	if graceful {
+		sc.Base = bb.graceful
+	}
+	b := &builder{g: g, r: r, sc: sc}
+	sc.BaseWorld = b.world()
+	for i := 0; i < 5; i++ {
+		b.store(eventfulSpec(g, r, ""))
+	}
+	w := uint64(core.NumBlocksPerFilter)
+	b.pruneWith(w-3, oneBatch)
+	b.simple("kill")
+	b.prune(w + 1)
+	b.simple("kill")
+	b.revert()
+	b.store(eventfulSpec(g, r, ""))
+	return sc
+}
+
 // boundaryBase is a node holding W-2 blocks (a few with events), stopped gracefully or killed.
 type boundaryBase struct {
 	g        *lib.ChainGen
@@ -232,6 +293,12 @@ func buildScenario(k scenKey, f lib.Flags) *Scenario {
 		sc = snapshotReorgScenario(k)
 	case "prune":
 		sc = pruneScenario(k)
+	case "prune-deep":
+		sc = pruneDeepScenario(k)
+	case "boundary-prune-killed":
+		sc = boundaryPruneScenario(k, false)
+	case "boundary-prune-graceful":
+		sc = boundaryPruneScenario(k, true)
 	case "boundary-directed-killed":
 		sc = boundaryScenario(k, false, true, 0)
 	case "boundary-directed-graceful":
@@ -354,6 +421,16 @@ func main() {
 			for _, dstNew := range []bool{false, true} {
 				keys = append(keys, scenKey{"snapshot-reorg", f.Seed*1000 + uint64(i), i%2 == 1, dstNew, "memory"})
 				keys = append(keys, scenKey{"prune", f.Seed*1000 + uint64(i), i%2 == 0, dstNew, "memory"})
+				keys = append(keys, scenKey{"prune-deep", f.Seed*1000 + uint64(i), i%2 == 1, dstNew, "memory"})
+			}
+		}
+		// one backend per seed in the quick tier, both in the thorough tier
+		for i, dstNew := range []bool{f.Seed%2 == 0, f.Seed%2 == 1} {
+			if i == 0 || f.Thorough() {
+				keys = append(keys, scenKey{"boundary-prune-killed", f.Seed, dstNew, dstNew, "memory"})
+			}
+			if f.Thorough() {
+				keys = append(keys, scenKey{"boundary-prune-graceful", f.Seed, dstNew, dstNew, "memory"})
 			}
 		}
 		for _, dstNew := range []bool{false, true} {
